@@ -65,7 +65,7 @@ CONFIG = dict(
          "for all 7 SessionDownReason shapes, snapshot flush of 0..6 announce/withdraw changes of colliding prefixes from the "
          "flushed and from foreign peers, the Loc-RIB Peer Up (loc_rib_peer_up), dump_table of 0..4 peers (sometimes two sessions sharing an address) x 0..3 IPv4 + 0..3 IPv6 prefixes x 1..3 paths, and of 256..305 peers), and END-TO-END sessions: a real PeerSession (accept_connection, run_select, on_established, "
          "finish_session over loopback TCP, rig.rs) on a real TableManager observed by the REAL BmpClient::serve (policy "
-         "all) connected before and/or while the session is up, with and without ADD-PATH, 0..6 announce/withdraw UPDATEs; "
+         "all) connected before and/or while the session is up and by the REAL MrtDumper::serve (update dump to a file), with and without ADD-PATH, 0..6 announce/withdraw UPDATEs; "
          "the rest packet-level records (also VPNv4, labeled IPv4, flowspec IPv4 and EVPN NLRI built by the real decoder): all BMP kinds (route monitoring reach/unreach/EoR, peer up with "
          "arbitrary capability sets incl. >255 bytes, peer down with all 5 reasons, initiation TLVs, stats/termination/"
          "mirroring), BGP4MP with and without add-path, TABLE_DUMP_V2 dumps (0..300 peers, 0..15 entries, attribute blocks "
@@ -74,7 +74,11 @@ CONFIG = dict(
          "to >4096 bytes; values from small colliding pools and field maxima; ~8% of the cases lie outside the daemon's "
          "domain (V bit passed by the caller, 2-byte-AS MRT header, mixed-family MRT addresses, masks >32/128, peer index out "
          "of range, lengths that overflow their field) to pin the model there too; non-trivial = any record with a body; "
-         "distinct = distinct case line",
+         "distinct = distinct case line; corpus/C19/seed-boundaries.case pins, in every run, the exact boundaries of every numeric "
+         "field and length form (AS 0/65535/65536/max, distinguisher and timestamp maxima, TLV 0/255/256/65535/65536, prefix "
+         "lengths 0/1/7/8/9/31/32/33 and 0/1/63/64/65/127/128/129, attribute values of 255/256 bytes with and without the stored "
+         "extended-length bit, attribute blocks of 65535/65536 bytes, 65535/65536 peers and entries, a non-UPDATE message in a "
+         "route-monitoring item)",
     expect_tokens=["bmp-rm", "bmp-up", "bmp-down", "bmp-init", "bmp-stats", "bmp-term", "bmp-mirror", "mrt-mp", "td-peers",
                    "td-rib", "peer-v4", "peer-v6", "loc-rib", "flags-0", "flags-64", "flags-16", "flags-80", "flags-128",
                    "ap-on", "ap-off", "reach", "unreach", "eor", "multi-frame", "local-v4", "local-v6",
@@ -82,7 +86,12 @@ CONFIG = dict(
                    "mixed-local", "asn2", "peers-0", "peers-few", "peers-many", "ents-0", "ents-few", "ents-many",
                    "rib4", "rib6", "attrlen-0", "attrlen-some", "attrlen-max", "attrlen-over", "(panic)",
                    "ev-rm", "ev-out", "ev-loc", "ev-mrt", "ev-down", "ev-locup", "ev-flush", "ev-dump", "dpeers-256+",
-                   "ev-live", "early-serve", "late-serve", "lacts-0", "lacts-3", "pre", "post",
+                   "ev-live", "early-serve", "late-serve", "lacts-0", "lacts-3",
+                   # exact boundaries (corpus/C19/seed-boundaries.case guarantees them in every run)
+                   "asn-0", "asn-65535", "asn-65536", "asn-max", "dist-max", "ts-max",
+                   "tlv-0", "tlv-255", "tlv-256", "tlv-65535", "tlv-over",
+                   "mask-0", "mask-part", "mask-octet", "mask-full", "mask-over", "adata-255", "adata-256",
+                   "peers-65535+", "ents-65535+", "pre", "post",
                    "sess-none", "sess-hold", "sess-fsm", "sess-admin", "sess-io", "sess-remote", "sess-local",
                    "fmsgs-0", "fmsgs-2", "fmsgs-4", "dpeers-0", "dpeers-1", "dpeers-2", "dpeers-4", "dchg4-0", "dchg4-3",
                    "dchg6-0", "dchg6-3"],
@@ -111,7 +120,7 @@ CONFIG = dict(
                            "Attribute::encode for numeric attributes whose stored flags carry the extended-length bit (put_fixed_len): "
                            "modelled, but not reachable through the public constructors used by the harness",
                            "hash order of flush_peer_snapshot and table order of collect_loc_rib_paths (see level_note)",
-                           "MrtDumper::run_loop (file rotation) is not run; BmpClient::serve is run only with policy `all` and one IPv4 eBGP peer; its Loc-RIB snapshot loop never meets a destination without best path"],
+                           "MrtDumper::run_loop is run (ev-live: update dump, one file) but not its timer-driven file rotation nor serve_table; BmpClient::serve is run only with policy `all` and one IPv4 eBGP peer; its Loc-RIB snapshot loop never meets a destination without best path"],
     assumptions=["a monitored UPDATE has at least one NLRI and (unicast/multicast) a next hop; its attributes are in the "
                  "image of Attribute::decode", "peer and local address of a session are of one family (one TCP socket)",
                  "the caller never sets the V bit in PerPeerHeader.flags (daemon: 0, L, O, L|O)",
